@@ -159,6 +159,19 @@ func allIDs(t *chainkit.Tree) []bc.Hash {
 	return ids
 }
 
+// treeDump renders the engine's checkpoint tree with the signers of every link (replay witnesses only).
+func treeDump(nd *chainkit.Node) []string {
+	var tl []string
+	for _, x := range nd.Chain.VerifCasper().VerifTree() {
+		var ls []string
+		for _, l := range x.Links {
+			ls = append(ls, fmt.Sprintf("%s<-h%d:%s%v", "", l.SourceHeight, chainkit.HashShort(l.SourceHash), l.Signed))
+		}
+		tl = append(tl, fmt.Sprintf("%*sh%d %s st=%d parent=%s links=%s", x.Depth*2, "", x.Height, chainkit.HashShort(x.Hash), x.Status, chainkit.HashShort(x.ParentHash), strings.Join(ls, " ")))
+	}
+	return tl
+}
+
 func opKind(s chainkit.Step) string {
 	if s.Blk != nil {
 		return "block"
@@ -285,6 +298,10 @@ func TestC19(t *testing.T) {
 			return
 		}
 		final := observe(nd, ids)
+		var finalTree []string
+		if r.Replaying() {
+			finalTree = treeDump(nd)
+		}
 		c.Count("histories", 1)
 		c.Count("operations", int64(len(steps)))
 		if states[0].Finalized != final.Finalized {
@@ -482,6 +499,10 @@ func TestC19(t *testing.T) {
 						ft = append(ft, fmt.Sprintf("%s -> %s (writes %d)", s.String(), states[i+1].String(), marks[i+1]))
 					}
 					ctx["crash_free_trail"] = ft
+				}
+				if r.Replaying() {
+					ctx["engine_tree_crash_free_final"] = finalTree
+					ctx["engine_tree_recovered_final"] = treeDump(nd2)
 				}
 				ctx["recovered_final"] = end.String()
 				ctx["crash_free_final"] = final.String()
